@@ -71,6 +71,12 @@ CLAIMS.update({
                 design="7/C12", technique="Coq proof (reuse of the n-ary downward soundness lemma with unit weights) + exact differential correspondence + hidden ground interpretation monitor",
                 note=NOTE_TB + " Not modelled: downward through a quantifier whose operand is itself a quantifier (covered only by corpus witnesses); a downward() on a grounding that never had an upward() raises KeyError in the implementation (observed, reproduced by the model as an error outcome)."),
 })
+
+CLAIMS.update({
+    "C18": dict(text="Theorems over the training state machine with an ARBITRARY optimiser (Section variable: any function returning the same formulae with other weights/biases): C18_parameters_admissible (after >= 1 epoch weights >= 0 unless negative weights were requested, within w_max, biases in [0,b_max]; projection follows every optimiser step), C18_only_parameters_move, C18_final_state (bounds left behind = reset_bounds + infer under the final parameters), C18_contradiction_loss and C18_supervised_loss (>= 0; zero iff no bounds cross / labelled bounds equal their labels). Facts and labels are inputs the state machine cannot write. Partial: 'all parameters are finite' is outside an exact-rational model and is only monitored on the sampled traces.",
+                design="7/C18", technique="Coq proof (state machine around an optimiser oracle; projection and loss lemmas) + exact trace replay with a scripted optimiser + fresh-model re-inference on the implementation",
+                note=NOTE_TB + " Partial as stated (finiteness; float arithmetic of Adam not modelled; first-order models and alpha learning not in the training model)."),
+})
 NA_REASON = "check not built yet in this round (planned: see DESIGN.md section 7); not claimed"
 checks, na = [], []
 for p in props:
